@@ -83,12 +83,41 @@ def run(chk: lib.Check):
                 sem_files = sorted(d.glob("*.capella"))
                 lib_files = sorted(pathlib.Path(v) for v in res.values())
                 lib_sem = [f for ld in lib_files for f in sorted(ld.glob("*.capella"))]
-                cls = rng.choice(["same-fragment", "same-fragment"] + (["project-x-library"] * 3 if lib_sem else []))
+                # every third placement works on a FRAGMENTED copy: the two occurrences may then sit in files of different kinds
+                # (.capella / .capellafragment) of the same resource
+                frag_files = []
+                if not res and pi % 3 == 2:
+                    import fragmenter
+                    from lxml import etree as _ET
+                    t_ = _ET.parse(str(sem_files[0]))
+                    cands_ = [e for e in t_.getroot().iter() if isinstance(e.tag, str) and e.get("id") and e.getparent() is not None and len(e) >= 3
+                              and (e.get("{http://www.w3.org/2001/XMLSchema-instance}type") or "").endswith(("Pkg", "Component", "Architecture"))]
+                    rng.shuffle(cands_)
+                    chosen_ = sorted(cands_[:2], key=lambda e: len(list(e.iterancestors())))
+                    picks_ = [(e.get("id"), ("fragments/" if i_ % 2 else "") + f"F{i_}.capellafragment") for i_, e in enumerate(chosen_)]
+                    made_ = fragmenter.fragment_model(d, sem_files[0].name, pathlib.Path(spec0["path"]).name, picks_, aird_style="chain" if pi % 2 else "direct")
+                    frag_files = [d / m_ for m_ in made_]
+                cls = rng.choice(["same-fragment", "same-fragment"] + (["project-x-library"] * 3 if lib_sem else [])) if not frag_files else \
+                    rng.choice(["main-x-fragment", "fragment-x-main", "fragment-x-fragment", "same-fragment"])
                 fa = rng.choice(sem_files)
+                if cls == "fragment-x-main" or (cls == "fragment-x-fragment" and frag_files):
+                    fa = frag_files[0]
                 ids_a = UUID_RE.findall(fa.read_bytes())
                 if cls == "same-fragment":
+                    if frag_files and rng.random() < 0.5:
+                        fa = rng.choice(frag_files)
+                        ids_a = UUID_RE.findall(fa.read_bytes())
                     fb = fa
                     ids_b = ids_a
+                elif cls == "main-x-fragment":
+                    fb = rng.choice(frag_files)
+                    ids_b = UUID_RE.findall(fb.read_bytes())
+                elif cls == "fragment-x-main":
+                    fb = sem_files[0]
+                    ids_b = UUID_RE.findall(fb.read_bytes())
+                elif cls == "fragment-x-fragment":
+                    fb = frag_files[-1]
+                    ids_b = UUID_RE.findall(fb.read_bytes())
                 else:
                     fb = rng.choice(lib_sem)
                     ids_b = UUID_RE.findall(fb.read_bytes())
@@ -275,18 +304,37 @@ def run(chk: lib.Check):
                                 combos.append((o, name, h2, an, a2))
         prng.shuffle(combos)
         for o, name, h2, an, a2 in combos[: (25 if quick else 400)]:
-            for how in ("nested-then-fail", "nested-bad", "nested-ok"):
+            for how in ("nested-then-fail", "nested-bad", "interrupted-1", "interrupted-2", "interrupted-3", "nested-ok"):
                 nested_name = prng.choice(a2.classes).__name__ if a2.classes else prng.choice(["LiteralNumericValue", "LiteralStringValue", "LiteralBooleanValue"])
                 kw = {"name": "nested", an: NewObject(nested_name, **({"bogus_kw": 1} if how == "nested-bad" else {}))}
                 if how == "nested-then-fail":
                     kw["no_such_attribute_xyz"] = 1
                 before = snapshot(model, A)
                 desc = f"{type(o).__name__}({o.uuid}).{name}.create({h2.split(':')[-1]!r}, name=..., {an}=NewObject({nested_name!r}){', no_such_attribute_xyz=1' if how == 'nested-then-fail' else ''}) [{how}]"
+                # an abort that is not an Exception (Ctrl-C, SystemExit) at the k-th indexing step of the creation is a failure like any other
+                loader_ = model._loader
+                orig_index = loader_.idcache_index
+                if how.startswith("interrupted-"):
+                    k_left = [int(how.split("-")[1])]
+
+                    def interrupting_index(*a_, **k_):
+                        k_left[0] -= 1
+                        if k_left[0] == 0:
+                            raise KeyboardInterrupt("injected by the harness")
+                        return orig_index(*a_, **k_)
+                    loader_.idcache_index = interrupting_index
                 try:
                     new = getattr(o, name).create(h2, **kw)
                     outcome = "ok"
                 except Exception as e:  # noqa: BLE001
                     new, outcome = None, type(e).__name__
+                except KeyboardInterrupt as e:
+                    if "injected by the harness" not in str(e):
+                        raise
+                    new, outcome = None, "KeyboardInterrupt"
+                finally:
+                    if how.startswith("interrupted-"):
+                        del loader_.idcache_index       # back to the class's method
                 stats[f"create:{how}:{outcome}"] += 1
                 chk.note_case(("nested", spec0["name"], how, type(o).__name__, name, h2, an))
                 if new is None:
